@@ -21,7 +21,7 @@ def build_search(case):
     from pydrobert.torch.modules import CTCPrefixSearch
 
     fusion, beta = case["fusion"], case["beta_q"] / 4
-    lm = declm.HashLM(case["lm"]) if fusion != "none" else None
+    lm = declm.make_lm(case["lm"]) if fusion != "none" else None
     return CTCPrefixSearch(case["width"], beta, lm, valid_mixture=(fusion == "valid"))
 
 
@@ -49,7 +49,7 @@ def run_search(case, elems=None, search=None):
         else:
             lens_t = torch.tensor(lens, dtype=torch.int32 if case.get("lens_dtype") == "int32" else torch.long)
             lens_t = dl.relayout(lens_t, case.get("lens_layout", "contiguous"))
-        init = {"cond": torch.tensor(case["conds"], dtype=torch.long)} if has_lm else None
+        init = declm.initial_state(case["lm"], case["conds"]) if has_lm else None
         if init is None and case.get("omit_state", True):
             return search(logits, lens_t)
         return search(logits, lens_t, init if init is not None else dict())
@@ -57,7 +57,7 @@ def run_search(case, elems=None, search=None):
     for n in elems:
         L = T if lens is None else lens[n]
         lg = logits[:L, n:n + 1]
-        init = {"cond": torch.tensor([case["conds"][n]], dtype=torch.long)} if has_lm else dict()
+        init = declm.initial_state(case["lm"], [case["conds"][n]]) if has_lm else dict()
         out.append(search(lg, torch.tensor([L]), init))
     return out
 
@@ -249,6 +249,11 @@ def _search_cases(tier, width_mode="any", fusion_mode="any"):
         if fm != "none":
             # (one fused model in five gives some tokens probability exactly zero in some states)
             spec = draw(declm.lm_specs(V, V, max_cond=2, lo=-8, hi=8, zero_prob=draw(st.sampled_from([False] * 4 + [True]))))
+            if draw(st.integers(0, 3)) == 0:
+                # the library's own MixableShallowFusionLanguageModel over two stateful models as the search's model
+                s2 = draw(declm.lm_specs(V, V, max_cond=len(spec["cond"]), min_cond=len(spec["cond"]), lo=-8, hi=8))
+                spec = {"V": V, "M": max(spec["M"], s2["M"]), "cond": spec["cond"],
+                        "fusion": [spec, s2, draw(st.sampled_from([0.5, 1.0, 0.25, -0.5, 2.0]))]}
             case["lm"] = spec
             case["conds"] = draw(st.lists(st.integers(0, len(spec["cond"]) - 1), min_size=N, max_size=N))
             case["beta_q"] = draw(st.sampled_from([2, 1, 4, 0] if fusion_mode != "lm" else [2, 1, 4, 3]))
@@ -346,8 +351,10 @@ def _search_check(case, enum_elems=None, solo_elems=None):
         cl.add("fusion_active")
         if case["lm"]["M"] >= 2:
             cl.add("stateful_fused_lm")
-        if case["lm"].get("ninf"):
+        if case["lm"].get("ninf") or ("fusion" in case["lm"] and case["lm"]["fusion"][0].get("ninf")):
             cl.add("fused_lm_zero_prob")
+        if "fusion" in case["lm"] and case["lm"]["fusion"][0]["M"] >= 2 and case["lm"]["fusion"][1]["M"] >= 2:
+            cl.add("library_fusion_model_both_stateful")
     cl.add("logits_" + case["kind"])
     if case.get("layout", "contiguous") != "contiguous":
         cl.add("layout_" + case["layout"])
@@ -395,7 +402,7 @@ subcheck("C05", "fused", lambda tier: _search_cases(tier, fusion_mode="lm"), 800
          doc="shallow fusion and valid mixture with beta in {0.25, 0.5, 0.75, 1} and a HashLM whose state lives only in prev "
              "(extract_by_src / mix_by_mask must follow the surviving prefixes): same oracles with the fused extension scores; one "
              "fused model in five gives some tokens probability exactly zero; layouts / garbage past the lengths / module reuse as in `search`",
-         required_classes=["fusion_active", "stateful_fused_lm", "fusion_shallow", "fusion_valid", "pruned_unambiguous",
+         required_classes=["fusion_active", "stateful_fused_lm", "fusion_shallow", "fusion_valid", "library_fusion_model_both_stateful", "pruned_unambiguous",
                            "width_exceeds_live_prefixes", "fused_lm_zero_prob", "layout_offset", "layout_transposed",
                            "non_finite_past_length", "module_reused", "train_eval_toggled", "float64_logits"])(_search_check_all)
 
